@@ -1,12 +1,12 @@
 """C04 — group law (structural clauses)."""
 from core import report
 from core.sm9 import Repo
-from . import shared, weight, grouplaw
+from . import shared, weight, grouplaw, field
 
 
 def run(ctx):
     repo = Repo(ctx.dev)
-    rules = [weight.rule_weight_group("C04", repo)] + grouplaw.rules_c04("C04", repo)
+    rules = [weight.rule_weight_group("C04", repo)] + grouplaw.rules_c04("C04", repo) + [field.rule_tower_consts("C04", repo)]
     return report.emit(
         "C04", ctx.tier, ctx.seed, rules, ctx.started,
         "Jacobian-weight abstract interpretation of add (all 13 arms), double, neg: every arm returns (2k,3k,k) and only equal-weight quantities are added/compared, i.e. covariance "
